@@ -103,7 +103,28 @@ const (
 	pvLongError           = 27 // error whose Error() is 40 KiB long
 	pvString64K           = 28 // 64 KiB string
 	numPanicKinds         = 29
+	// not raised by doPanic: net/http's own panic inside a first WriteHeader(n) with n < 100 or n > 999
+	// (checkWriteHeaderCode); = invalid_hdr_pv of Model/Relay.v
+	pvInvalidHdr = 29
 )
+
+// invalidCode: net/http refuses the status code (and panics, unless a header was written before).
+func invalidCode(c int) bool { return c < 100 || c > 999 }
+
+// encCode: status codes in case lines are natural numbers; a negative int n is written as 2000000 - n (the model
+// only needs to know that net/http rejects it).
+func encCode(c int) int {
+	if c < 0 {
+		return 2000000 - c
+	}
+	return c
+}
+func decCode(c int) int {
+	if c >= 2000000 && c < 3000000 {
+		return 2000000 - c
+	}
+	return c
+}
 
 type longError struct{ n int }
 
@@ -299,6 +320,8 @@ func salient(kind, n int) ([]string, int) {
 		return []string{"long-" + num + "-", "zzzzzzzz"}, 40 << 10
 	case pvString64K:
 		return []string{"s64-" + num + "-", "wwwwwwww"}, 64 << 10
+	case pvInvalidHdr: // n = the code; net/http: "invalid WriteHeader code <n>"
+		return []string{"WriteHeader", num}, 1
 	}
 	return nil, 1 // nil, typed nils, values whose methods panic, chan, func: any non-empty text
 }
@@ -1010,13 +1033,29 @@ func methodIndex(m string) int {
 	return 99
 }
 
-func panicKindOf(sc []action) (int, bool) {
-	for _, a := range sc {
-		if a.tag == aPanic {
-			return a.a, true
+// panicOf: the kind of value the scripted handler panics with and the number its rendering carries (the request
+// number, or the status code for net/http's own panic inside a first WriteHeader with a code it rejects).
+func panicOf(sp *reqSpec) (kind, n int, has bool) {
+	started := false
+	for _, a := range sp.script {
+		switch {
+		case a.tag == aPanic:
+			return a.a, sp.no, true
+		case a.tag == aHdr:
+			if !started && invalidCode(a.a) {
+				return pvInvalidHdr, a.a, true
+			}
+			started = true
+		case a.tag == aBody || a.tag == aFlush || a.tag >= aError404 && a.tag <= aRespondJson:
+			started = true
 		}
 	}
-	return 0, false
+	return 0, 0, false
+}
+
+func panicKindOf(sp *reqSpec) (int, bool) {
+	k, _, has := panicOf(sp)
+	return k, has
 }
 
 // batch runs the given requests concurrently against one site, then attributes the records.
@@ -1145,12 +1184,12 @@ func (rn *runner) batch(s *site, specs []*reqSpec) {
 				dr.tag = 3
 			case d.level == "ERROR" && d.hasPv && d.tag == "":
 				dr.tag = 2
-				if k, has := panicKindOf(sp.script); has {
+				if k, n, has := panicOf(sp); has {
 					text := d.pvText
 					if s.hkind == 0 {
 						text = afterStack(text)
 					}
-					dr.pv = judgePanicText(k, sp.no, s.hkind, text)
+					dr.pv = judgePanicText(k, n, s.hkind, text)
 				}
 			}
 			sp.recs = append(sp.recs, dr)
@@ -1195,6 +1234,9 @@ func (rn *runner) emit(s *site, sp *reqSpec, inflight int) {
 	}
 	f = append(f, strconv.Itoa(len(model)))
 	for _, a := range model {
+		if a.tag == aHdr {
+			a.a = encCode(a.a)
+		}
 		f = append(f, strconv.Itoa(a.tag), strconv.Itoa(a.a), strconv.Itoa(a.b))
 	}
 	bodySeen := sp.method != methodHEAD
@@ -1207,7 +1249,7 @@ func (rn *runner) emit(s *site, sp *reqSpec, inflight int) {
 	}
 	f = append(f, strconv.Itoa(len(sp.recs)))
 	for _, r := range sp.recs {
-		f = append(f, strconv.Itoa(r.tag), strconv.Itoa(r.code), strconv.Itoa(r.ipOK), strconv.Itoa(r.method),
+		f = append(f, strconv.Itoa(r.tag), strconv.Itoa(encCode(r.code)), strconv.Itoa(r.ipOK), strconv.Itoa(r.method),
 			strconv.Itoa(r.uOwner), strconv.Itoa(r.idOwner), strconv.Itoa(r.pv))
 	}
 	if sp.esc {
@@ -1238,9 +1280,11 @@ func (rn *runner) emit(s *site, sp *reqSpec, inflight int) {
 			rn.stats["actions_store_helpers"]++
 		case a.tag >= aCtxReplace:
 			rn.stats["actions_request_context"]++
+		case a.tag == aHdr && invalidCode(a.a):
+			rn.stats["actions_WriteHeader_code_rejected_by_net_http"]++
 		}
 	}
-	if k, has := panicKindOf(sp.script); has {
+	if k, has := panicKindOf(sp); has {
 		rn.stats[fmt.Sprintf("panic_kind_%02d", k)]++
 		if sp.wire == 500 && len(sp.body) == 1 && sp.body[0] == errChunk {
 			rn.stats["relay_sent_500"]++
@@ -1266,6 +1310,13 @@ func ceilPow2(n int) int {
 		p *= 2
 	}
 	return p
+}
+
+func b2i(b bool) int {
+	if b {
+		return 1
+	}
+	return 0
 }
 
 func b2s(b bool) string {
@@ -1493,6 +1544,38 @@ func run(e *hk.Env) error {
 			add(r.Intn(3), []int{0, 8, 12, 16}[r.Intn(4)], 2, sc)
 		}
 	}
+	// 2c. WriteHeader(n) with an int net/http rejects (n < 100 or n > 999): as the first write it panics inside
+	// the call before anything is sent or recorded - a handler panic before any status was written; after a
+	// valid status / a body / Flush / a Store helper it is a superfluous call that net/http ignores. Code 0 only
+	// where no header went out yet (afterwards it would reset Status: outside the model's scope [codes_ok]).
+	{
+		prefixes := [][]action{{}, {{aNop, 0, 0}}, {{aCtxReplace, 1, 0}}, {{aHdr, 404, 0}}, {{aBody, 0, 1}}, {{aFlush, 0, 0}},
+			{{aFlush, 1, 0}}, {{aError404, 0, 4}}, {{aRespond200, 0, 0}}}
+		suffixes := [][]action{{}, {{aHdr, 200, 0}}, {{aBody, 1, 2}}, {{aPanic, pvString, 0}}, {{aPanic, pvTypedNil, 0}}, {{aFlush, 0, 0}, {aPanic, pvError, 0}}}
+		i := 0
+		for _, code := range []int{1000, 42, -1, 0, 99, 100000, -500, 1 << 40} {
+			for pi, pre := range prefixes {
+				if code == 0 && pi > 2 {
+					continue
+				}
+				for _, suf := range suffixes {
+					sc := append(append(append([]action(nil), pre...), action{aHdr, code, 0}), suf...)
+					i++
+					for hkind := 0; hkind < 3; hkind++ {
+						if hkind == i%3 || e.Thorough() {
+							add(hkind, 4, 0, sc)
+							add(hkind, 4, 1, sc)
+						} else {
+							add(hkind, 4, (i+hkind)%2, sc)
+						}
+					}
+					if len(pre) == 0 || pi == 3 {
+						add(r.Intn(3), []int{0, 8, 12, 16}[r.Intn(4)], r.Intn(2), sc)
+					}
+				}
+			}
+		}
+	}
 	// 3. the abort value itself (outside the property; model comparison only)
 	for i := 0; i < 60; i++ {
 		sc := append(append([]action(nil), scripts[r.Intn(len(scripts))]...), action{aPanic, pvAbort, 0})
@@ -1511,6 +1594,12 @@ func run(e *hk.Env) error {
 			case x < 2:
 				sc = append(sc, action{aNop, 0, 0})
 			case x < 5:
+				if r.Chance(8) {
+					// a code net/http rejects; 0 only as the very first action
+					bad := []int{1000, 42, -1, 99, 7, 31337, -404, 0}
+					sc = append(sc, action{aHdr, bad[r.Intn(len(bad)-1+b2i(j == 0))], 0})
+					break
+				}
 				sc = append(sc, action{aHdr, 200 + r.Intn(400), 0})
 			case x < 9:
 				sc = append(sc, action{aBody, r.Intn(3), 1 + r.Intn(9)})
@@ -1604,6 +1693,9 @@ func parseCase(line string) (hkind, thr int, sc []action, ok bool) {
 		t, _ := strconv.Atoi(f[8+3*i])
 		a, _ := strconv.Atoi(f[9+3*i])
 		b, _ := strconv.Atoi(f[10+3*i])
+		if t == aHdr {
+			a = decCode(a)
+		}
 		sc = append(sc, action{t, a, b})
 	}
 	return hkind, thr, sc, true
